@@ -1113,6 +1113,18 @@ func (pool *TxPool) demoteUnexecutables() {
 				pool.enqueueTx(hash, tx)
 			}
 		}
+		// A gap behind the front (a reorg re-injected only the first of several
+		// dropped transactions while later nonces were still pending): postpone
+		// everything after the first missing nonce
+		if list.Len() > 0 {
+			next := nonce
+			for list.txs.Get(next) != nil {
+				next++
+			}
+			for _, tx := range list.txs.Filter(func(tx *types.Transaction) bool { return tx.Nonce() > next }) {
+				pool.enqueueTx(tx.Hash(), tx)
+			}
+		}
 		// Delete the entire queue entry if it became empty.
 		if list.Empty() {
 			delete(pool.pending, addr)
